@@ -4,7 +4,8 @@
      the stored strings (escaping itself is xml.etree's: the check is that values reach it unmodified);
 (ii) F1 exploration with to_string calls interleaved: a repeated call returns the same text, and the
      history with the calls behaves like the history without them (twin);
-(iii) a subtree serialises to the same content alone as inside its parent."""
+(iii) a subtree serialises to the same content alone as inside its parent, also after the whole tree and
+     the subtree have been serialised and the subtree has then been edited (value or attribute)."""
 import collections
 import itertools
 import textwrap
@@ -126,6 +127,121 @@ def judge_subtree(spec):
     return 'ok', []
 
 
+def _edit_for(cs):
+    """an edit of a child described by spec cs: (label, apply(child element), edited spec) or None"""
+    import copy
+    tn, c, st = lib.type_of(cs['name'])
+    if cs.get('value') is not None and st is not None:
+        for v in docs.representatives(st, 4):
+            if v != cs['value'] and type(v) is type(cs['value']):
+                s2 = copy.deepcopy(cs)
+                s2['value'] = v
+
+                def f(ch, v=v):
+                    ch.value_ = v
+                return 'value:=%r' % (v,), f, s2
+    for a in (c['attrs'] if c else []):
+        if ':' in a['name'] or a['name'] == 'name' or a.get('fixed'):
+            continue
+        T = refmodel.attr_type(lib.MODEL, a)
+        if a['name'] in cs['attrs']:
+            if a.get('required'):
+                continue
+            s2 = copy.deepcopy(cs)
+            del s2['attrs'][a['name']]
+
+            def f(ch, k=docs.py_attr(a['name'])):
+                setattr(ch, k, None)
+            return 'delete @%s' % a['name'], f, s2
+        vals = docs.representatives(T, 2)
+        if vals:
+            s2 = copy.deepcopy(cs)
+            s2['attrs'][a['name']] = vals[0]
+
+            def f(ch, k=docs.py_attr(a['name']), v=vals[0]):
+                setattr(ch, k, v)
+            return '@%s:=%r' % (a['name'], vals[0]), f, s2
+    return None
+
+
+def _at(spec, path):
+    for i in path:
+        spec = spec['children'][i]
+    return spec
+
+
+def _elem_at(e, path, spec):
+    for i in path:
+        kids = e.get_children()
+        if len(kids) != len(spec['children']) or kids[i].name != spec['children'][i]['name']:
+            return None
+        e, spec = kids[i], spec['children'][i]
+    return e
+
+
+def judge_edit(spec):
+    """whole tree serialised, a descendant (depth 2 first, then depth 1) serialised alone and then edited through the API: the next
+    output of the whole tree must be the output of a freshly built tree with the edit"""
+    import copy
+    found = []
+    paths = [(i, j) for i, c in enumerate(spec['children'][:3]) for j, _ in enumerate(c['children'][:2])] + [(i,) for i, _ in enumerate(spec['children'][:3])]
+    done = 0
+    for path in paths:
+        if done >= 3:
+            break
+        cs = _at(spec, path)
+        ed = _edit_for(cs)
+        if ed is None:
+            continue
+        label, f, cs2 = ed
+        spec2 = copy.deepcopy(spec)
+        _at(spec2, path[:-1])['children'][path[-1]] = cs2
+        where = '%s of <%s> at %s' % (label, cs['name'], '/'.join(map(str, path)))
+        try:
+            with lib.Capture():
+                fresh = docs.build_api(spec2).to_string()
+                plain = docs.build_api(spec)
+                t = _elem_at(plain, path, spec)
+                if t is None:
+                    continue
+                f(t)
+                if plain.to_string() != fresh:
+                    continue            # the edit itself behaves differently from construction: not this check's matter
+        except Exception:
+            continue
+        done += 1
+        try:
+            with lib.Capture():
+                e = docs.build_api(spec)
+                ch = _elem_at(e, path, spec)
+                e.to_string()
+                ch.to_string()
+                f(ch)
+                after = e.to_string()
+                alone = ch.to_string()
+        except Exception as ex:
+            found.append(('edit-after-serialisation-raises:%s' % type(ex).__name__, where))
+            continue
+        if after != fresh:
+            found.append(('output-stale-after-subtree-serialisation', '%s: whole tree gives %r, a fresh tree %r' % (
+                where, _first_diff(after, fresh), _first_diff(fresh, after))))
+            continue
+        node = ET.fromstring(after)
+        for i in path:
+            node = node[i]
+        if docs.diff_infoset(ET.fromstring(alone), node):
+            found.append(('subtree-differs-from-slice-of-parent', 'after ' + where))
+    return 'ok', found[:1]
+
+
+def _first_diff(a, b):
+    la, lb = a.splitlines(), b.splitlines()
+    for x, y in zip(la, lb):
+        if x != y:
+            return x.strip()[:70]
+    return (la[len(lb):] or [''])[0].strip()[:70]
+
+
 def run_strings(name, tier):
     stats = collections.Counter()
     cands, samples = [], []
@@ -164,6 +280,10 @@ def run_strings(name, tier):
             stats['paths'] += 1
             for kind, detail in found:
                 cands.append(dict(cls=name, kind=kind, witness=dict(position='subtree', variant=label, spec=spec), detail=detail))
+            status, found = judge_edit(spec)
+            stats['paths'] += 1
+            for kind, detail in found:
+                cands.append(dict(cls=name, kind=kind, witness=dict(position='edit', variant=label, spec=spec), detail=detail))
     # one witness per (kind, position) and class
     seen = {}
     for cnd in cands:
@@ -239,6 +359,8 @@ def replay(c):
             _, found = judge_text(name, w['string'])
         elif w['position'] == 'subtree':
             _, found = judge_subtree(w['spec'])
+        elif w['position'] == 'edit':
+            _, found = judge_edit(w['spec'])
         else:
             _, found = judge_attr(name, w['position'][1:], w['string'])
         for k, d in found:
@@ -257,7 +379,8 @@ def describe():
     return dict(
         rule='(i) every free-text element and up to 2 (6) free-string attributes per class x all strings of length <= 2 (3) over 13 character classes plus '
              'fixed strings; (ii) breadth-first exploration with to_string interleaved, compared with the twin history without the calls; (iii) subtree '
-             'vs slice of the parent on C08 variants; non-trivial = accepted strings + histories containing a to_string call',
+             'vs slice of the parent on C08 variants, then whole tree, subtree, edit of the subtree (value / attribute set / attribute deleted), whole tree '
+             'again compared with a freshly built tree; non-trivial = accepted strings + histories containing a to_string call',
         functions=['xmlelement/xmlelement.py:XMLElement.to_string', 'XMLElement._create_et_xml_element', 'XMLElement.et_xml_element', 'XMLElement._final_checks',
                    'xmlelement/xmlchildcontainer.py:XMLChildContainer.check_required_elements', 'XMLChildContainer.get_required_element_names'],
         bounds=dict(string_length='<= 2 quick / 3 thorough', history='depth <= 6, budget 1200 / 15000 per class', outside='longer strings; carriage returns'),
